@@ -47,6 +47,23 @@ var (
 // Alive returns the number of scripted commands currently alive.
 func Alive() int { return int(aliveCount.Load()) }
 
+// AliveProc reports whether a scripted command of process p is alive.
+func AliveProc(p string) bool {
+	allMu.Lock()
+	defer allMu.Unlock()
+	for _, c := range all {
+		if c.Proc == p {
+			c.mu.Lock()
+			a := c.started && !c.dead
+			c.mu.Unlock()
+			if a {
+				return true
+			}
+		}
+	}
+	return false
+}
+
 // Reset forgets all commands (between scenarios) after force-killing survivors.
 func Reset() {
 	allMu.Lock()
